@@ -3,6 +3,7 @@
 usage: tools/seedmatrix.py [id-prefix ...]"""
 import subprocess, sys, os, json, time
 ROOT = os.path.dirname(os.path.dirname(os.path.abspath(__file__)))
+REPO = os.environ.get("VERIF_REPO", "/repo")
 LIB = ["C%02d" % i for i in range(1, 13)]
 CLI = ["C%02d" % i for i in range(13, 21)]
 sel = sys.argv[1:]
@@ -12,11 +13,11 @@ for d in sorted(os.listdir(os.path.join(ROOT, "seeded"))):
     p = os.path.join(ROOT, "seeded", d, "patch.diff")
     if not os.path.exists(p) or (sel and not any(d.startswith(s) for s in sel)):
         continue
-    touched = subprocess.run(["git", "apply", "--numstat", p], capture_output=True, text=True, cwd="/repo").stdout
+    touched = subprocess.run(["git", "apply", "--numstat", p], capture_output=True, text=True, cwd=REPO).stdout
     cli_only = all("src/cli/" in l for l in touched.strip().split("\n"))
     checks = CLI if cli_only else LIB
-    assert subprocess.run(["git", "-C", "/repo", "status", "--porcelain"], capture_output=True, text=True).stdout.strip() == "", "/repo not clean"
-    if subprocess.run(["git", "-C", "/repo", "apply", p]).returncode != 0:
+    assert subprocess.run(["git", "-C", REPO, "status", "--porcelain"], capture_output=True, text=True).stdout.strip() == "", "/repo not clean"
+    if subprocess.run(["git", "-C", REPO, "apply", p]).returncode != 0:
         matrix[d] = {"error": "patch does not apply"}
         continue
     row = {}
@@ -29,7 +30,7 @@ for d in sorted(os.listdir(os.path.join(ROOT, "seeded"))):
             row[c] = {"rc": r.returncode, "violations": len(v), "first": v[0][:200] if v else "", "summary": last, "wall": round(time.time() - t, 1)}
             print(d, c, r.returncode, len(v), flush=True)
     finally:
-        subprocess.run(["git", "-C", "/repo", "checkout", "--", "."])
-        subprocess.run(["git", "-C", "/repo", "clean", "-fdq", "tests/", "src/"])
+        subprocess.run(["git", "-C", REPO, "checkout", "--", "."])
+        subprocess.run(["git", "-C", REPO, "clean", "-fdq", "tests/", "src/"])
     matrix[d] = row
     json.dump(matrix, open(out_path, "w"), indent=1, sort_keys=True)
